@@ -191,6 +191,18 @@ Theorem attr_lookup_by_whole_name : forall members name, sd_attr_lookup members 
 Proof. exact sd_attr_lookup_exact. Qed.
 Print Assumptions attr_lookup_by_whole_name.
 
+(* ---- (10) attributes of a Vdata; sources of the modelled raw-location functions ------------------------------ *)
+(** VSgetattdatainfo (owner test, pointer step and attached entry regenerated from hdatainfo.c): the entry whose
+    data it reports is the attrindex-th attribute OF THE REQUESTED OWNER, wherever it stands in the whole list *)
+Theorem vsattr_lookup_exact : forall alist f k, vs_getattdatainfo_entry alist f k = vsattr_nth alist f k.
+Proof. exact vs_getattdatainfo_exact. Qed.
+Print Assumptions vsattr_lookup_exact.
+
+Theorem vsattr_search_text :
+  VSgetattdatainfo_step = "vs_alist++;"%string /\ VSgetattdatainfo_attached = "vs_alist->aref"%string.
+Proof. exact vs_search_text. Qed.
+Print Assumptions vsattr_search_text.
+
 (* ==== non-vacuity: every hypothesis above is met by a concrete, non-trivial object ======================== *)
 Definition ex_dd : dd := mkdd 16484 7 310 16.            (* a special (linked) descriptor *)
 Example ex_dd_ok : dd_ok ex_dd /\ p_dd (dd_encode ex_dd ++ [9]) = Some (ex_dd, [9]).
@@ -275,4 +287,9 @@ Proof. vm_compute. reflexivity. Qed.
 Example ex_attr_prefix :
   sd_attr_lookup [(attr_class, [117; 110; 105; 116; 115; 95; 108], 7); (attr_class, [117; 110; 105; 116; 115], 9)]
                  [117; 110; 105; 116; 115] = Some 9.
+Proof. vm_compute. reflexivity. Qed.
+
+(** attributes of the vdata (-1) and of fields 0 and 1 set in interleaved order: attribute 1 of field 0 is entry 3 *)
+Example ex_vsattr :
+  vs_getattdatainfo_entry [mkva 0 1962 5; mkva (-1) 1962 6; mkva 1 1962 7; mkva 0 1962 8] 0 1 = Some (mkva 0 1962 8).
 Proof. vm_compute. reflexivity. Qed.
